@@ -406,7 +406,7 @@ def latest_cases(chk, drv, work):
 # ------------------------------------------------------------------------------------------------
 # C. the parameter file
 
-def fresh_folder_cases(chk, work):
+def fresh_folder_cases(chk, work, drv=None):
     """a run that lets setupSave choose its folder gets a folder of its own: one that did not exist before, whatever simulation_* entries
     (with gaps in the numbering, files of that name, checkpoints of older runs) the working directory holds - else a later restart
     continues a FOREIGN run from a foreign time"""
@@ -444,6 +444,10 @@ def fresh_folder_cases(chk, work):
            or os.listdir(os.path.join(wd, f)) != ['initParams.json']:
             chk.fail('C18:fresh-folder', 'setupSave without a folder name did not give the run a new folder of its own (it returned %r; it holds %s)'
                      % (f, sorted(os.listdir(os.path.join(wd, f))) if os.path.isdir(os.path.join(wd, f)) else 'nothing'), case)
+        if drv is not None:
+            mo = drv.call({'op': 'first_free', 'existing': existing})
+            if 'simulation_%s' % mo['index'] != os.path.basename(f.rstrip('/')):
+                chk.diff('folder chosen by setupSave', case, 'simulation_%s' % mo['index'], f)
         chk.count('fresh folder chosen by setupSave')
         chk.case(('fresh', tuple(sorted(before)), nranks), nontrivial=bool(existing))
 
@@ -864,7 +868,7 @@ def run(chk):
     try:
         roundtrip_cases(chk, drv, work)
         latest_cases(chk, drv, work)
-        fresh_folder_cases(chk, work)
+        fresh_folder_cases(chk, work, drv)
         constants_cases(chk, drv, work)
         if prog is not None:
             plan = QUICK_PLAN if chk.quick() else THOROUGH_PLAN
